@@ -14,11 +14,13 @@ CONF = {
     'struct': dict(quick=[('struct', ('H_E', 'M_E0', 'T_E', 'O_E', 3, 3), 5000), ('struct-macro', ('H_E', 'M_E1', 'T_E1', 'O_E', 2, 3), 2000),
                           ('brackets-deep', ('H_E', 'M_E0', 'T_PM', 'O_PM', 6, 4), 4000, (1500, 30)),
                           ('loops-only', ('H_E', 'M_E0', 'T_PM', 'O_L02', 6, 3), 6000),
-                          ('struct-deep', ('H_E', 'M_E1', 'T_E1', 'O_E', 7, 4), 2500, (1000, 40))],
+                          ('struct-deep', ('H_E', 'M_E1', 'T_E1', 'O_E', 7, 4), 2500, (1000, 40)),
+                          ('struct-macro-ovr', ('H_E', 'M_E2', 'T_E1', 'O_E0', 2, 3), 1500)],
                    thorough=[('struct', ('H_E', 'M_E0', 'T_E', 'O_E', 5, 4), 120000), ('struct-macro', ('H_E', 'M_E1', 'T_E1', 'O_E', 4, 3), 60000),
                              ('brackets', ('H_E', 'M_E0', 'T_PM', 'O_PM', 6, 4), 150000),
                              ('loops-only', ('H_E', 'M_E0', 'T_PM', 'O_L02', 8, 4), 100000),
-                             ('struct-deep', ('H_E', 'M_E1', 'T_E1', 'O_E', 9, 5), 60000, (20000, 50))]),
+                             ('struct-deep', ('H_E', 'M_E1', 'T_E1', 'O_E', 9, 5), 60000, (20000, 50)),
+                             ('struct-macro-ovr', ('H_E', 'M_E2', 'T_E1', 'O_E0', 3, 3), 40000)]),
     'gates': dict(quick=[('gates-wide', ('H_G', 'M_G', 'T_G', 'O_G', 3, 3, 'NoGates'), 3000),
                          ('gates-deep', ('H_G', 'M_E0', 'T_G2', 'O_G2', 5, 2, 'NoGates'), 2000),
                          ('gates-sim', ('H_G', 'M_G', 'T_G', 'O_G', 9, 4, 'NoGates'), 2500, (700, 40)),
@@ -48,7 +50,7 @@ PROPS = {
                      'parallel blocks, loops (0, 1, 2, let) and a macro; non-trivial = distinct programs with a loop or a block '
                      'around a prepare/measure event'),
     'C08': dict(conf=['struct'], owned={'terminates', 'visits', 'readout_index', 'hook_visits', 'attribution', 'frequencies',
-                                        'nonzero_prob', 'str_int_same'}, sites=('run', 'outparse'),
+                                        'nonzero_prob', 'str_int_same'}, sites=('run', 'outparse', 'run_ovr'),
                 rule='same enumeration as C12, executed by the emulator and by the hardware-output parser on an output '
                      'list of the length the specification computes; non-trivial = distinct accepted programs with a loop '
                      'around a subcircuit'),
@@ -261,7 +263,8 @@ def main(prop, tier):
             for n, it in enumerate(items):
                 jobs.append({'id': '%s/%d' % (name, n), 'prog': it['prog'], 'nv': it['nv'], 'nq': it['nq'], 'accept': it['accept'],
                              'sites': spec['sites'], 'seed': core.seed() + n,
-                             'ovrs': passes.override_choices(it['prog'], rng, [0, 2, 3, 1], 2)[1:] if 'run_ovr' in spec['sites'] else []})
+                             'ovrs': passes.override_choices(it['prog'], rng, [0, 2, 3, 1], 2)[1:]
+                             if 'run_ovr' in spec['sites'] and (prop == 'C03' or name.endswith('-ovr')) else []})
                 if prop == 'C13' and "'par': True" in repr(it['prog']['body']):
                     rp = dict(it['prog'], body=[reverse_par(x) for x in it['prog']['body']])
                     jobs.append({'id': '%s/%d/rev' % (name, n), 'prog': rp, 'nv': it['nv'], 'nq': it['nq'],
